@@ -7,6 +7,7 @@ CONSTANTS
   MaxBatch = 8
   MaxFail = 1000000
   MaxStops = 1000000
+  MaxCancel = 1000000
   Inflights = {1, 2}
   Hws = {2, 3, 4, 99}
   Caps = {1, 2, 3, 99}
@@ -15,6 +16,6 @@ CONSTANTS
   Canonical = FALSE
   StrictOrder = FALSE
 CONSTRAINT Track
-INVARIANTS ObligationsC29 WellFormed SuccessNamesStoredRecord C29_Aligned C29_NoSecondMessage C29_RetryOriginal C29_ChangedPayloadNeverSucceeds C29_OrderOneInflight
+INVARIANTS ObligationsC29 C29_CanceledOnlyIfCancelled WellFormed SuccessNamesStoredRecord C29_Aligned C29_NoSecondMessage C29_RetryOriginal C29_ChangedPayloadNeverSucceeds C29_OrderOneInflight
 POSTCONDITION Accepted
 CHECK_DEADLOCK FALSE
